@@ -1,5 +1,6 @@
 import EinoV.Basic.JsonUtil
 import EinoV.Model.C15
+import EinoV.Model.C15Embed
 import EinoV.Expected.C15
 
 namespace EinoV.Oracle.C15
@@ -61,6 +62,13 @@ partial def renderKVs : FKVs → List Json
   | .cons k v r => Json.mkObj [("n", k), ("v", renderVal v)] :: renderKVs r
 end
 
+/-- the embedded fields of the struct types of the case: `"emb":[[struct type name, field name],…]` -/
+def parseEmb (c : Json) : JE Emb :=
+  (J.arrD c "emb").mapM (fun p => do
+    match (← J.asArr p) with
+    | [a, b] => pure ((← J.asStr a), (← J.asStr b))
+    | _ => throw "bad emb entry")
+
 def parseMapping (j : Json) : JE Mapping := do
   pure { src := (← (J.arrD j "from").mapM J.asStr), dst := (← (J.arrD j "to").mapM J.asStr) }
 
@@ -89,10 +97,12 @@ def runWhole (st : FTy) (d : Decl) : Except RunErr FVal :=
 def handleMapping (c : Json) : JE Json := do
   let st ← parseTy (← J.field c "target")
   let decls ← (← J.arr c "decls").mapM parseDecl
+  let emb ← parseEmb c
   let tf := Expected.C15.trie
   let kf := Expected.C15.take
   let vf := Expected.C15.validate
-  let groups := decls.map (fun d => d.ms.map (·.dst))
+  -- promoted selectors are shorthand for explicit paths: overlap is judged on the slots denoted
+  let groups := decls.map (fun d => d.ms.map (fun m => (elabMapping emb d.ty st m).dst))
   let free : Bool := decide (noOverlap (targets groups))
   let wholeOnly := match decls with
     | [d] => d.ms.isEmpty
@@ -102,21 +112,25 @@ def handleMapping (c : Json) : JE Json := do
       match decls with
       | [d] => checkAssignable d.ty st != .mustNot
       | _ => false
-    else compileOK tf vf st (decls.map (fun d => (d.ty, d.ms)))
+    else compileOKP emb tf vf st (decls.map (fun d => (d.ty, d.ms)))
+  let edge (d : Decl) : Edge := { pt := d.ty, v := d.v, ms := d.ms }
   let run (allowMissing : Bool) : Except RunErr FVal :=
     match decls with
     | [d] => if d.ms.isEmpty then runWhole st d
-             else runNode kf vf allowMissing st [{ pt := d.ty, v := d.v, ms := d.ms }]
-    | _ => runNode kf vf allowMissing st (decls.map (fun d => { pt := d.ty, v := d.v, ms := d.ms }))
+             else runNodeP emb kf vf allowMissing st [edge d]
+    | _ => runNodeP emb kf vf allowMissing st (decls.map edge)
   -- Stream: every predecessor edge delivers its own chunk (fieldMap with allowMapKeyNotFound),
   -- each chunk is converted on its own
   let chunks : List (Except RunErr FVal) := decls.map (fun d =>
     if d.ms.isEmpty then runWhole st d
-    else runNode kf vf true st [{ pt := d.ty, v := d.v, ms := d.ms }])
+    else runNodeP emb kf vf true st [edge d])
   let anyPanic := chunks.any (fun r => match r with | .error .panic => true | _ => false)
   let anyErr := chunks.any (fun r => match r with | .error _ => true | _ => false)
   let streamClass := if anyPanic then "panic" else if anyErr then "err" else "ok"
-  let base := [("compile", Json.str (if ok then "accept" else "reject")), ("overlapFree", Json.bool free)]
+  let promoted : Bool := decls.any (fun d => d.ms.any (fun m =>
+    elabMapping emb d.ty st m != m || runPath emb kf d.ty d.v (elabMapping emb d.ty st m) != m.src))
+  let base := [("compile", Json.str (if ok then "accept" else "reject")), ("overlapFree", Json.bool free),
+    ("promoted", Json.bool promoted)]
   if ok then
     pure <| Json.mkObj (base ++ [("invoke", renderRun (run false)),
       ("stream", Json.mkObj [("class", streamClass)]),
